@@ -15,7 +15,7 @@ PID = "C02"
 LEVEL = "model_checking"
 RULE = ("base geometries (depth pairs x separations, offset from the origin, non axis-aligned azimuth) for Specialized, Basic(dz=1), Uniform "
         "(max_reflections 0..3) and two Layered stacks; BFS to depth 2 over {swap, translate(256,0), translate(-64,512), rotate 90, rotate 180, "
-        "rotate 37}; states = distinct endpoint pairs traced, transitions = edges checked; distinct_nontrivial = states with >= 1 solution")
+        "rotate 37}, every state traced by a new tracer AND by one tracer object re-pointed along the search; states = distinct endpoint pairs traced, transitions = edges checked; distinct_nontrivial = states with >= 1 solution")
 ASSUMPTIONS = ["states reached by different routes are merged by their coordinates (sound: a tracer is a pure function of its endpoints)",
                "solutions are matched across an edge after sorting by time of flight",
                "attenuation is compared in log space; the Uniform tracer's left Riemann sum is direction dependent at the 1e-4 level"]
@@ -127,10 +127,18 @@ def _tracer(kind, p0, p1):
     return LayeredRayTracer(p0, p1, ice)
 
 
-def _observe(kind, p0, p1):
-    """('ok', exists, [solution dicts sorted by tof]) or ('exc', text)"""
+def _observe(kind, p0, p1, shared=None):
+    """('ok', exists, [solution dicts sorted by tof]) or ('exc', text).  With `shared` (a one-element list holding a tracer,
+    or None the first time) the SAME tracer object is re-pointed to the new endpoints instead of building a new one."""
     try:
-        tr = _tracer(kind, p0, p1)
+        if shared is None:
+            tr = _tracer(kind, p0, p1)
+        elif shared[0] is None:
+            tr = shared[0] = _tracer(kind, p0, p1)
+        else:
+            tr = shared[0]
+            tr.from_point = np.array(p0, dtype=float)
+            tr.to_point = np.array(p1, dtype=float)
         sols = tr.solutions
         ex = bool(tr.exists)
         out = []
@@ -170,10 +178,22 @@ def evaluate(case):
         if kind == "layered_aa":
             rt_generic = 1e-6
 
+    shared = [None]
+    reused_bad = []
+
     def obs(p0, p1):
         k = _key(p0, p1)
         if k not in states:
             states[k] = _observe(kind, p0, p1)
+            # the same answer must come from ONE tracer object that is re-pointed from state to state along the search
+            again = _observe(kind, p0, p1, shared)
+            ok = again[0] == states[k][0]
+            if ok and again[0] == "ok":
+                ok = again[1] == states[k][1] and len(again[2]) == len(states[k][2]) and all(
+                    np.array_equal(np.asarray(x[n_]), np.asarray(y[n_]), equal_nan=True)
+                    for x, y in zip(again[2], states[k][2]) for n_ in ("L", "T", "e", "r", "att"))
+            if not ok:
+                reused_bad.append((p0, p1, again, states[k]))
         return states[k]
 
     dz_ = abs(base[0][2] - base[1][2])
@@ -256,6 +276,9 @@ def evaluate(case):
             if k not in seen:
                 seen.add(k)
                 frontier.append((h2, q0, q1))
+    for p0, p1, again, fresh in reused_bad[:3]:
+        fail("reused-tracer", (), "one tracer object re-pointed to %s -> %s answers %s, a new tracer %s"
+             % (list(p0), list(p1), str(again)[:200], str(fresh)[:200]))
     nontriv = ["%s|%s" % (kind, k) for k, v in states.items() if v[0] == "ok" and len(v[2])]
     return {"n": trans, "nontrivial": nontriv, "fails": fails, "states": len(states), "transitions": trans,
             "sample": {"tracer": kind, "base": [list(base[0]), list(base[1])], "generators": GENS}}
